@@ -12,6 +12,7 @@ TABLES = [
     {'A': 10.37, 'B': 24.9, 'C': 101.5, 'D': 3.33},
     {'A': 11.02, 'B': 23.55, 'C': 97.25, 'D': 3.61},
     {'A': 9.96, 'B': 25.4, 'C': 110.75, 'D': 2.97},
+    {'A': 10.37002, 'B': 24.90005, 'C': 101.5002, 'D': 3.330007},      # table 0 moved by ~2e-6
 ]
 CLOSES = [pd.Timestamp(t, tz='UTC') for t in ('2020-03-02 21:00', '2020-03-03 21:00', '2020-03-04 21:00', '2020-03-05 21:00')]
 OPENS = [pd.Timestamp(t, tz='UTC') for t in ('2020-03-03 14:30', '2020-03-04 14:30', '2020-03-05 14:30', '2020-03-06 14:30')]
@@ -22,6 +23,7 @@ PRESETS = {
     'long_AB': [('A', 100), ('B', 50)],
     'long_A_short_C': [('A', 100), ('C', -30)],
     'holds_D': [('D', 40), ('B', 20)],
+    'large': [],          # 50,000,000 of funds: positions of millions of shares, adjustments of a few shares
 }
 
 
@@ -72,9 +74,10 @@ class Machine(object):
         from qstrader.portcon.order_sizer.dollar_weighted import DollarWeightedCashBufferedOrderSizer
         from qstrader.portcon.order_sizer.long_short import LongShortLeveragedOrderSizer
         self.stub = Stub()
-        self.broker = SimulatedBroker(T0, SimulatedExchange(T0), self.stub, initial_funds=100000.0, fee_model=make_fee(fee))
+        funds = 50000000.0 if preset == 'large' else 100000.0
+        self.broker = SimulatedBroker(T0, SimulatedExchange(T0), self.stub, initial_funds=funds, fee_model=make_fee(fee))
         self.broker.create_portfolio('p')
-        self.broker.subscribe_funds_to_portfolio('p', 100000.0)
+        self.broker.subscribe_funds_to_portfolio('p', funds)
         if sizer_kind == 'long_only':
             self.sizer = DollarWeightedCashBufferedOrderSizer(self.broker, 'p', self.stub, cash_buffer_percentage=0.05)
         else:
@@ -189,7 +192,7 @@ def menus(sizer_kind, tier):
     full = [(u, tuple(sorted(d.items())), t) for u in UNIVERSES for d in alpha_dicts(vals, 3) for t in range(3)]
     small_alpha = alpha_dicts(vals[1:], 2, assets=['A', 'B', 'D']) + [{'A': 0.0}, {'C': vals[2], 'A': vals[1]}]
     small_uni = [(), ('A',), ('A', 'B', 'C')]
-    small = [(u, tuple(sorted(d.items())), t) for u in small_uni for d in small_alpha for t in (1, 2)]
+    small = [(u, tuple(sorted(d.items())), t) for u in small_uni for d in small_alpha for t in (1, 2, 3)]
     if tier == 'quick':
         return [full, small]
     return [full, small, small[::3]]
@@ -210,11 +213,27 @@ def run(tier, res, is_known):
     for sizer_kind, fee in combos:
         ms = menus(sizer_kind, tier)
         for preset in PRESETS:
+            if preset == 'large':
+                continue
             spec = Spec(sizer_kind, fee, preset, ms)
             bfs(spec, len(ms), res, is_known, label='%s fee=%s preset=%s' % (sizer_kind, '/'.join(fee), preset),
                 recheck=6)
             if any(not is_known(v) for v in res.violations):
                 return
+    for sizer_kind in ('long_only', 'long_short'):
+        spec = Spec(sizer_kind, ('zero',), 'large', large_menus(sizer_kind))
+        bfs(spec, 2, res, is_known, label='%s zero fee, large holdings' % sizer_kind, recheck=6)
+        if any(not is_known(v) for v in res.violations):
+            return
+
+
+def large_menus(sizer_kind):
+    """first round at table 0, second round at table 3 (prices moved by 2e-6): the target moves by a few shares"""
+    vals = [1.0, 2.0] if sizer_kind == 'long_only' else [1.0, -1.0]
+    first = [(u, tuple(sorted(d.items())), 0) for u in [('A',), ('A', 'B')] for d in alpha_dicts(vals, 2, assets=['A', 'B'])]
+    second = [(u, tuple(sorted(d.items())), t) for u in [('A',), ('A', 'B')] for d in alpha_dicts(vals, 2, assets=['A', 'B'])
+              for t in (3, 0)]
+    return [first, second]
 
 
 def replay(case):
